@@ -40,6 +40,8 @@ pub struct Engine {
     dir: String,
     pub transcript: Vec<String>,
     stderr: String,
+    /// front-end options the process was started with (empty for most engines)
+    pub started_with: String,
 }
 impl Engine {
     pub fn spawn() -> Result<Engine, String> {
@@ -55,6 +57,14 @@ impl Engine {
         } else {
             Command::new(&bin)
         };
+        // command-line options of the front end given to a process that then speaks UCI: they belong
+        // to the bench / self-play modes and must not leak into the session (every eighth engine)
+        let mut started_with = String::new();
+        if n % 8 == 5 {
+            let extra: [&[&str]; 4] = [&["--fen=r3k2r/8/8/8/8/8/8/R3K2R b KQkq - 3 9"], &["--fen=8/8/8/4k3/8/8/4P3/4K3 w - - 0 1", "-d", "3"], &["-S"], &["-d", "2", "--fen=rnbqkbnr/pppp1ppp/8/4p3/4P3/8/PPPP1PPP/RNBQKBNR w KQkq e6 0 2"]];
+            cmd.args(extra[(n as usize / 8) % 4]);
+            started_with = format!("engine started as `walleye {}`; ", extra[(n as usize / 8) % 4].join(" "));
+        }
         let mut child = cmd.current_dir(&dir).stdin(Stdio::piped()).stdout(Stdio::piped()).stderr(Stdio::piped()).spawn().map_err(|e| format!("HARNESS: cannot start {}: {}", bin, e))?;
         let stdin = child.stdin.take();
         let out = child.stdout.take().unwrap();
@@ -83,7 +93,7 @@ impl Engine {
                 }
             }
         });
-        Ok(Engine { child, stdin, rx, err_rx, dir, transcript: vec![], stderr: String::new() })
+        Ok(Engine { child, stdin, rx, err_rx, dir, transcript: vec![], stderr: String::new(), started_with })
     }
     pub fn send(&mut self, line: &str) -> Instant {
         self.transcript.push(format!("> {}", line));
@@ -199,7 +209,7 @@ impl Engine {
         let alive = self.alive();
         let pan = self.panicked();
         let n = self.transcript.len();
-        format!("process {}{}; last lines: {:?}", if alive { "alive" } else { "ended" }, pan.map(|p| format!(", stderr: {}", p)).unwrap_or_default(), &self.transcript[n.saturating_sub(6)..])
+        format!("{}process {}{}; last lines: {:?}", self.started_with, if alive { "alive" } else { "ended" }, pan.map(|p| format!(", stderr: {}", p)).unwrap_or_default(), &self.transcript[n.saturating_sub(6)..])
     }
 }
 impl Drop for Engine {
